@@ -13,7 +13,7 @@ use scratchstack_aws_signature::{SignatureOptions, NO_ADDITIONAL_SIGNED_HEADERS}
 use serde::{Deserialize, Serialize};
 use serde_json::json;
 
-pub const RULE: &str = "enumerated completely: every two-digit value 00-99 of month, day (for every month of a leap and a non-leap year), hour, minute, second, zone hour and zone minute with the other fields fixed; all 2^5 separator combinations x 3 fraction marks; fraction lengths 0-12; years 0001, 0999, 1000, 9999; generated: random strings over the date-time alphabet, single-character insertions/deletions/substitutions of valid timestamps, renderings of random instants, surrounding spaces on the header carrier, a well-formed Date header next to the X-Amz-Date under test; each string on both carriers. Also: junk appended/prepended to a valid timestamp (comma-space-x, space-GMT, semicolon-x, a second timestamp after comma-space), and pairs of same-length strings one digit apart (fractions up to 50 digits) parsed directly after one another. Oracle = independent recursive-descent ISO-8601 parser with calendar arithmetic: MustAccept => the crate produces an authenticator whose instant equals the reference instant (offset applied, fraction truncated to ns), line 2 of its string-to-sign is that instant as YYYYMMDD'T'hhmmss'Z' in UTC, and end to end a request signed for that instant is accepted with the server clock exactly 900 s later and refused 1 ns further (pins the instant through the stable API); MustReject (out-of-range field, impossible date, missing zone, extra characters) => IncompleteSignature/400; Unspecified (zone > 14h, mixed separators, reduced precision, lower-case designators) => if accepted the instant must still be the reference one. Non-trivial: well-formed except for at most one field, or non-Z zone, or fraction, or extended form; distinct by (string, carrier).";
+pub const RULE: &str = "enumerated completely: every two-digit value 00-99 of month, day (for every month of a leap and a non-leap year), hour, minute, second, zone hour and zone minute with the other fields fixed; all 2^5 separator combinations x 3 fraction marks; fraction lengths 0-12; years 0001, 0999, 1000, 9999; generated: random strings over the date-time alphabet, single-character insertions/deletions/substitutions of valid timestamps, renderings of random instants, surrounding spaces on the header carrier, a well-formed Date header next to the X-Amz-Date under test; each string on both carriers and as the last field of a folded form body (trailing line breaks left raw). Also: junk appended/prepended to a valid timestamp (comma-space-x, space-GMT, semicolon-x, a second timestamp after comma-space), and pairs of same-length strings one digit apart (fractions up to 50 digits) parsed directly after one another. Oracle = independent recursive-descent ISO-8601 parser with calendar arithmetic: MustAccept => the crate produces an authenticator whose instant equals the reference instant (offset applied, fraction truncated to ns), line 2 of its string-to-sign is that instant as YYYYMMDD'T'hhmmss'Z' in UTC, and end to end a request signed for that instant is accepted with the server clock exactly 900 s later and refused 1 ns further (pins the instant through the stable API); MustReject (out-of-range field, impossible date, missing zone, extra characters) => IncompleteSignature/400; Unspecified (zone > 14h, mixed separators, reduced precision, lower-case designators) => if accepted the instant must still be the reference one. Non-trivial: well-formed except for at most one field, or non-Z zone, or fraction, or extended form; distinct by (string, carrier).";
 
 #[derive(Clone, Debug, Serialize, Deserialize, PartialEq, Eq)]
 pub struct TsCase {
@@ -51,6 +51,8 @@ pub fn subs() -> Vec<Box<dyn AnySub>> {
 
 fn both(text: String, out: &mut Vec<TsCase>) {
     out.push(TsCase { text: text.clone(), query_carrier: false, pad: 0 });
+    // the same string as the last field of a folded form body
+    out.push(TsCase { text: text.clone(), query_carrier: true, pad: 64 });
     // the same X-Amz-Date value next to a well-formed Date header (after it / before it)
     out.push(TsCase { text: text.clone(), query_carrier: false, pad: if text.len() % 2 == 0 { 16 } else { 48 } });
     out.push(TsCase { text, query_carrier: true, pad: 0 });
@@ -135,11 +137,11 @@ fn valid_ts() -> BoxedStrategy<String> {
 }
 
 pub fn mutated() -> BoxedStrategy<TsCase> {
-    (valid_ts(), 0u8..4, any::<u16>(), any::<u16>(), any::<bool>(), prop_oneof![3 => Just(0u8), 1 => 0u8..16, 2 => 0u8..64])
+    (valid_ts(), 0u8..4, any::<u16>(), any::<u16>(), any::<bool>(), prop_oneof![3 => Just(0u8), 1 => 0u8..16, 2 => 0u8..64, 2 => prop_oneof![Just(64u8), Just(192u8)]])
         .prop_map(|(t, kind, pos, c, q, pad)| {
             const ALPHA: &[u8] = b"0123456789TZtz:+-., 9";
             // what an intermediary or a sloppy client may put around a timestamp
-            const JUNK: &[&str] = &[", ", ", x", ", 20161231T235959Z", " ,", ",", ";", "; x", " x", " Z", "Z", " GMT", " UTC", "Z, ", ",0", ", 0", "/", "\"", "'", "(x)", "[UTC]", "=", "&", "%20"];
+            const JUNK: &[&str] = &["\n", "\r\n", "\r", "\n\n", "\t", " ", ", ", ", x", ", 20161231T235959Z", " ,", ",", ";", "; x", " x", " Z", "Z", " GMT", " UTC", "Z, ", ",0", ", 0", "/", "\"", "'", "(x)", "[UTC]", "=", "&", "%20"];
             let mut b: Vec<u8> = t.into_bytes();
             let ch = ALPHA[pick_idx(c, ALPHA.len())];
             match kind {
@@ -230,6 +232,34 @@ fn build_request(tc: &TsCase, credential_date: &str) -> WireRequest {
             crate::model::canon::pct_encode(tc.text.as_bytes()),
             "0".repeat(64)
         );
+        if tc.pad & 64 != 0 {
+            // third carrier: the parameters travel in a form body that the server folds into the query; the date is the
+            // LAST field, and (bit 7) whatever trails the timestamp text is left raw rather than percent-encoded
+            let head = format!(
+                "X-Amz-Algorithm=AWS4-HMAC-SHA256&X-Amz-Credential={}&X-Amz-SignedHeaders=host&X-Amz-Signature={}&X-Amz-Date=",
+                crate::model::canon::pct_encode(cred.as_bytes()),
+                "0".repeat(64)
+            );
+            let text = tc.text.as_bytes();
+            let keep_raw = if tc.pad & 128 != 0 { text.iter().rev().take_while(|c| matches!(c, b'\r' | b'\n' | b' ' | b'\t' | b'Z' | b'z')).count() } else { 0 };
+            let mut body = head.into_bytes();
+            body.extend_from_slice(crate::model::canon::pct_encode(&text[..text.len() - keep_raw]).as_bytes());
+            for c in &text[text.len() - keep_raw..] {
+                // a raw space would read as is, a raw '+' as a space: only bytes that mean themselves stay raw
+                if *c == b' ' {
+                    body.extend_from_slice(b"%20");
+                } else {
+                    body.push(*c);
+                }
+            }
+            return WireRequest {
+                method: "POST".into(),
+                uri: "/".into(),
+                version: 11,
+                headers: vec![("Host".into(), B::from("h.example")), ("Content-Type".into(), B::from("application/x-www-form-urlencoded"))],
+                body: B(body),
+            };
+        }
         WireRequest { method: "GET".into(), uri: format!("/?{}", q), version: 11, headers: vec![("Host".into(), B::from("h.example"))], body: B::default() }
     } else {
         let mut v = Vec::new();
@@ -265,7 +295,8 @@ fn crate_parse(req: &WireRequest) -> Result<Result<(Instant, String), exec::ErrI
     let http_req = exec::build_http(req).map_err(|e| format!("UNREPRESENTABLE {}", e))?;
     let r = std::panic::catch_unwind(std::panic::AssertUnwindSafe(move || {
         let (parts, body) = http_req.into_parts();
-        let (cr, _, _) = CanonicalRequest::from_request_parts(parts, body, SignatureOptions::default())?;
+        let fold = parts.headers.contains_key("content-type");
+        let (cr, _, _) = CanonicalRequest::from_request_parts(parts, body, SignatureOptions { s3: false, url_encode_form: fold })?;
         let auth = cr.get_authenticator(&NO_ADDITIONAL_SIGNED_HEADERS)?;
         let ts = auth.request_timestamp();
         let sts = auth.get_string_to_sign();
@@ -353,6 +384,7 @@ pub fn check_ts(tc: &TsCase, cc: &mut CaseCtx) -> CheckResult {
     };
     cc.class(label);
     cc.class_if(tc.query_carrier, "query-carrier");
+    cc.class_if(tc.query_carrier && tc.pad & 64 != 0, "form-body-carrier");
     cc.class_if(tc.pad & 15 != 0 && !tc.query_carrier, "padded-header");
     cc.class_if(tc.pad & 16 != 0 && !tc.query_carrier, "well-formed-date-header-alongside");
     if label != "unspecified" {
